@@ -9,6 +9,8 @@ Local Open Scope Z_scope.
 
 (* compact literal for long runs of one byte *)
 Definition rep (x n : Z) : bytes := repeat x (Z.to_nat n).
+(* concatenation of segments (the cases files do not rely on any scope for ++) *)
+Definition cat (l : list bytes) : bytes := concat l.
 
 Inductive value :=
 | VInt (v : Z)
